@@ -857,6 +857,11 @@ func runSched(c caseIn) *caseOut {
 	for _, nm := range nl {
 		pm, err := domainproxy.VerifLookup(freeMod, nm)
 		out.Finals = append(out.Finals, routedRes(pm, err))
+		if err == nil && strings.HasPrefix(pm.ID, "hdm_") { // the routing predicate on the quiescent answers as well
+			v, gerr := under.Get(repos.KeyPrefixHTTPDomainMapping + pm.ID)
+			js, _ := v.(string)
+			r.checkRouted(-1, nm, pm, js, gerr == nil)
+		}
 	}
 	// (E4) re-claim probe: a name without index entry is claimable by anybody, routes to the new owner, and is
 	// released again by the new owner's delete; a name with an index entry is not claimable
